@@ -3,16 +3,16 @@ module verifh
 go 1.21
 
 require (
+	github.com/DataDog/datadog-agent/pkg/obfuscate v0.39.0
+	github.com/GuanceCloud/grok v1.1.2
 	github.com/GuanceCloud/platypus v0.0.0
+	github.com/antchfx/xmlquery v1.3.12
 	github.com/influxdata/influxdb1-client v0.0.0-20220302092344-a9ab5670611c
 	go.uber.org/zap v1.23.0
 )
 
 require (
-	github.com/DataDog/datadog-agent/pkg/obfuscate v0.39.0 // indirect
 	github.com/DataDog/datadog-go/v5 v5.1.0 // indirect
-	github.com/GuanceCloud/grok v1.1.2 // indirect
-	github.com/antchfx/xmlquery v1.3.12 // indirect
 	github.com/antchfx/xpath v1.2.1 // indirect
 	github.com/araddon/dateparse v0.0.0-20201001162425-8aadafed4dc4 // indirect
 	github.com/cespare/xxhash/v2 v2.1.1 // indirect
